@@ -268,6 +268,21 @@ def streams(ctx):
     out.append(Stream("recurrence", ops, oracle=True, model_ops=mops3, judge=judge_ok, timeout=900,
                       classify=lambda op, res: regime(int(op.split()[2]), int(op.split()[3]))))
 
+    # ---- F2. the regime where PhiCache's 16 MiB-per-thread limit is ACTIVE (x^(1/2.3) * ... : x > ~1.2e15 for a >= 130,
+    #          higher for smaller a): max_x_ / max_x_size_ / max_a_ are then clamped and must stay consistent with each
+    #          other (seeded change C16-a: stale max_x_ after the clamp => out-of-bounds sieve access). Recurrence on three
+    #          implementation values, a few threads settings.
+    ops = []
+    n = 24 if q else 200
+    for k in range(n):
+        x = int(math.exp(rng.uniform(math.log(1.3 * 10 ** 15), math.log(2 * 10 ** 16 if q else 10 ** 18))))
+        if k % 6 == 0:
+            x = rng.choice([2 * 10 ** 15, 10 ** 16, 3647040 ** 2 * 100]) + rng.randint(-2, 2)
+        a = rng.choice([rng.randint(130, 260), rng.randint(50, 130), rng.randint(260, 2000)] if k % 3 else [199, 200, 130, 131])
+        ops.append("phi3 %d %d %d %d" % (rng.choice([0, 16, 1] if x < 10 ** 16 else [0, 16]), x, a, P[a - 1]))
+    out.append(Stream("recurrence_cache_clamped", ops, oracle=True, model_ops=mops3, judge=judge_ok, timeout=1800,
+                      classify=lambda op, res: "x>=1e15"))
+
     # ---- G. closed form phi(x, a) = pi(x) - a + 1 for a >= pi(sqrt x) (judge; a = pi(sqrt x) is Legendre's formula
     #         through the full algorithm)
     ops = []
